@@ -383,6 +383,12 @@ pub fn random_taxonomy(rng: &mut Rng) -> (Grid, Vec<String>) {
         rows.push(mk(&fname, vec!["val".into()], None));
         names.push(fname);
     }
+    // a def whose name is the empty symbol (nothing forbids it; it must behave like any other name)
+    if rng.chance(1, 8) {
+        let sup = names[rng.below(names.len())].clone();
+        rows.push(mk("", vec![sup], None));
+        names.push(String::new());
+    }
     // rows without a def, and a non-list 'is'
     if rng.chance(1, 3) {
         let mut d = Dict::new();
